@@ -23,11 +23,24 @@ func opLRU(args []string) string {
 		return "err"
 	}
 	u.EnableKeyCache(cap)
+	// optional configuration history: EnableKeyCache(c) again before key number pos
+	re := map[int][]int{}
+	if len(args) > 2 && args[2] != "-" {
+		for _, pc := range strings.Split(args[2], ",") {
+			f := strings.SplitN(pc, ":", 2)
+			pos, _ := strconv.Atoi(f[0])
+			c, _ := strconv.Atoi(f[1])
+			re[pos] = append(re[pos], c)
+		}
+	}
 	if err := u.OnObjectStart(-1, 0); err != nil {
 		return "err"
 	}
 	var steps []string
-	for _, k := range keys {
+	for ki, k := range keys {
+		for _, c := range re[ki] {
+			u.EnableKeyCache(c)
+		}
 		kk := append([]byte(nil), k...)
 		if err := u.OnKeyRef(kk); err != nil {
 			return "err"
@@ -97,6 +110,22 @@ func genLRU(r *Rand, tier string, emit func(string)) {
 			ks = append(ks, k)
 		}
 		emit("lru " + strconv.Itoa(cap) + " " + ChunksString(ks))
+		// the same history with the capacity changed on the way (also to and from 0 / negative,
+		// also before the first key and twice in a row)
+		if m > 0 {
+			var re []string
+			for j := 0; j < 1+r.Intn(3); j++ {
+				re = append(re, strconv.Itoa(r.Intn(m))+":"+strconv.Itoa(r.Intn(7)-1))
+			}
+			emit("lru " + strconv.Itoa(cap) + " " + ChunksString(ks) + " " + strings.Join(re, ","))
+		}
+	}
+	for _, a := range []int{-1, 0, 1, 2, 5} {
+		for _, b := range []int{-1, 0, 1, 2, 5} {
+			emit("lru " + strconv.Itoa(a) + " 61,62,63,61,,62 0:" + strconv.Itoa(b))
+			emit("lru " + strconv.Itoa(a) + " 61,62,63,61,,62 2:" + strconv.Itoa(b))
+			emit("lru " + strconv.Itoa(a) + " 61,62,63,61,,62 0:" + strconv.Itoa(b) + ",0:" + strconv.Itoa(a) + ",4:" + strconv.Itoa(b))
+		}
 	}
 }
 
